@@ -55,7 +55,7 @@ Proof. exact sync_before_event. Qed.
 Theorem C03_value_tail_converges : forall init ops1 ops2 r,
   let p1 := pexec (pipe0 init) ops1 in
   let p2 := pexec (pipe0 init) (ops1 ++ ops2) in
-  Owes r p1 -> Forall (fun o => o <> PUnlink r) ops2 ->
+  Owes r p1 -> Forall (fun o => o <> PUnlink r /\ o <> PStopAll) ops2 ->
   vl_dirty (p_lane p2) = false ->
   forall x, aget r (p_rems p2) = Some x -> v_home (r_up x) = true ->
   last_opt (events_of (r_sent x)) = Some (vl_content (p_lane p2)).
